@@ -1755,15 +1755,6 @@ def classification(rep: Report, ctx: Ctx, rule: str) -> None:
         ("loop-back edges run from end events to start events", "call",
          "get_loop_edges", "", ("P:start_nodes", "END", "P:graph"), []),
     ])
-    fi = ctx.func("calc_loop_end_break_and_loop_edges")
-    effs = effects(ctx, fi)
-    du = [e for e in effs if e.kind == "call" and e.name ==
-          "difference_update" and e.args == ("P:scc_nodes",)]
-    rep.ob(rule, "calc_loop_end_break_and_loop_edges: a break event is never "
-           "an event of the SCC itself", len(du) == 1 and not du[0].guards,
-           fi=fi, node=du[0].node if du else fi.node,
-           detail=f"{len(du)} unconditional difference_update(scc_nodes) on "
-                  "the break set")
     table("get_end_nodes_using_start_nodes", [], {
         "get_nodes_with_outedges_in_set",
         "get_end_nodes_from_potential_end_nodes"}, [
@@ -1858,7 +1849,7 @@ def classification(rep: Report, ctx: Ctx, rule: str) -> None:
 def r722(rep: Report, ctx: Ctx) -> None:
     rep.rule("R7.22", "the components of a loop (start, end, break events, "
              "loop-back edges) are computed as defined: which set from "
-             "which, under which case split", 18)
+             "which, under which case split", 17)
     classification(rep, ctx, "R7.22")
 
 
